@@ -42,7 +42,7 @@ def f_tol(p, lo, hi):
 
 
 def t_alphabet(tier):
-    edges = [0.0, 5e-324, 1e-300, 2.0**-53, 1e-9, 1 - 1e-9, 1 - 2.0**-53]
+    edges = [0.0, 5e-324, 1e-300, 2.0**-53, 1e-9, 1 - 1e-9, 1 - 2.0**-53, 1.0 / (1.0 + 2.0**-52), 1 - 2.0**-52]
     m = 16 if tier == "quick" else 64
     return np.array(edges + [k / m for k in range(1, m)])
 
@@ -95,7 +95,25 @@ def judge(spec, N, t):
             i = int(np.where(bad)[0][0])
             out.append(("bounds", [lo, hi], float(logE[i])))
         if len(stub.returned) >= 1 and np.size(stub.returned[0]) == N:
-            u = np.clip(np.asarray(stub.returned[0], dtype=np.float64).ravel(), 0.0, 1.0)
+            uraw = np.asarray(stub.returned[0], dtype=np.float64).ravel()
+            # the closed ends of the unit interval map to the bounds themselves (in exact arithmetic F^-1(0) = lower and
+            # F^-1(1) = upper; for steep spectra the CDF is so flat at the top that a one-ulp change of u moves the
+            # energy by most of a decade, so the F-space clause below cannot see a mis-handled end point)
+            # ... conditioning-aware: a one-ulp change of u moves the energy by ulp / F'(bound); beyond a few of those the
+            # end point is mis-handled.  (For steep, wide spectra F' at the top is so small that every energy in the
+            # interval is within one ulp of u = 1: nothing can be demanded there in double precision.)
+            mp_ = 1.0 - p
+            for cond, bound, name in ((uraw >= 1.0, hi, "upper"), (uraw <= 0.0, lo, "lower")):
+                if not cond.any():
+                    continue
+                if mp_ == 0.0:
+                    slope = 1.0 / (hi - lo)
+                else:
+                    slope = abs(mp_ * LN10 * np.exp(mp_ * LN10 * (bound - lo)) / np.expm1(mp_ * LN10 * (hi - lo)))
+                tol_x = 1e-9 + 8 * 2.0**-53 / max(slope, 1e-300)
+                if not np.all(np.abs(logE[cond] - bound) <= tol_x):
+                    out.append(("end_point_maps_to_bound", f"u at the {name} end -> {bound} (+-{tol_x:.3g})", float(logE[cond][0])))
+            u = np.clip(uraw, 0.0, 1.0)
             F = cdf_ref(np.clip(logE, lo, hi), p, lo, hi)
             err = np.abs(F - u)
             tol = f_tol(p, lo, hi)
